@@ -43,4 +43,19 @@ def blockSigops : Block :=
 
 def mtp0 : Nat → Nat := fun _ => 0
 
+/-- a plainly valid block: spends (h1,0) into one output -/
+def blockOk : Block := blk [cbTx 5000000000, spend 1 1 h1 0xffffffff [⟨900, [0x51]⟩]]
+
+/-- a valid block with a version-2 transaction whose BIP68 height lock of 1 block is satisfied (coin at 150, block 151) -/
+def blockLockOk : Block := blk [cbTx 5000000000, spend 1 2 h1 1 [⟨900, [0x51]⟩]]
+
+/-- two CHOSEN txids with equal first 8 bytes (real ones would need a 2^32-work collision search) -/
+def idA : Bytes := [9,9,9,9,9,9,9,9] ++ List.replicate 24 1
+def idB : Bytes := [9,9,9,9,9,9,9,9] ++ List.replicate 24 2
+/-- A spends (h1,0) into two outputs; B spends (A,0); (A,1) stays unspent -/
+def blockClash : Block :=
+  blk [cbTx 5000000000,
+       { spend 1 1 h1 0xffffffff [⟨600, [0x51]⟩, ⟨400, [0x51]⟩] with txid := idA },
+       { spend 2 1 idA 0xffffffff [⟨600, [0x51]⟩] with txid := idB }]
+
 end GocoinV.Proofs.C04.W
